@@ -69,7 +69,7 @@ def generate(repo):
              "startswith": "id_startswith", "name": "id_name", "attr_or_subscript": "id_attr_or_subscript", "_X5ix": "id_prefix_str",
              "_X5ix_x": "id_cmp_x", "_X5ix_y": "id_cmp_y",
              "call_context": "id_call_context", "call_node_id": "id_call_node_id", "is_starred": "id_is_starred", "is_kwstarred": "id_is_kwstarred",
-             "key": "id_key", "is_last": "id_is_last", "": "id_empty_str", "range": "id_range"}
+             "key": "id_key", "is_last": "id_is_last", "": "id_empty_str", "range": "id_range", "%s": "id_fmt_s"}
     # the reserved names must be the ones the library really uses
     import importlib.util
     eb = {}
